@@ -148,3 +148,18 @@ def run_seq(case, acc):
                 detail=dict(step=i, vars=gm.svars, missing=sorted(ref - got),
                             extra=sorted(got - ref)))
             return
+    for v, dst, c2 in fam.ownership_changes(aut, case):
+        gm2 = fam.GameModel(aut, c2)
+        P = [gm2.state_table(u) for u in aut.win['<>[]']]
+        G = [gm2.state_table(u) for u in aut.win['[]<>']]
+        zk, _, _ = gr1.solve_rabin_game(aut)
+        got = gm2.state_table(zk[-1])
+        ref = gm2.winning(P, G, rabin=True)
+        acc.ev(dict(seq=case, own=v), 0 < len(ref) < len(gm2.states))
+        if got != ref:
+            acc.violation(
+                'rabin_region_mismatch_after_ownership_change', case,
+                detail=dict(moved=v, to=dst, vars=gm2.svars,
+                            missing=sorted(ref - got),
+                            extra=sorted(got - ref)))
+            return
